@@ -779,6 +779,12 @@ def _post_leaf(da, pipe):
     if kind == "max":
         if not free or da.dtype.kind not in "iuf":
             return da
+        if da.size == 0:
+            # e.g. rolling.sum with a window longer than the series: zero time steps.  numpy reduces
+            # a non-empty axis of an empty array to an empty array, dask.array.nanmax refuses every
+            # zero-size array at graph construction -- a difference between the two libraries in
+            # *this consumer*, not in hdc (DESIGN 9.4); the result is compared unreduced instead
+            return da
         return da.max(dim=free[int(fa * len(free)) % len(free)])
     if kind == "where":
         if da.dtype.kind not in "iuf":
